@@ -642,14 +642,15 @@ def _foreign_factories_guarded(ctx):
 
 #: dictionary lookups keyed by a hint in the conversion pipeline that need no guard, with the reason the key is hashable there
 HASHABLE_BY_DISPATCH = {
-    ('redpep484612646typearg', 'reduce_hint_pep484612646_typearg'):
+    # keyed by module: the reason holds for every function of a module that is only reached through that dispatch (a lookup
+    # factored into a new private helper of the same module keeps it)
+    'redpep484612646typearg':
         'dispatched on the type-parameter signs: the key is a TypeVar / ParamSpec / TypeVarTuple object, hashable by identity',
-    ('redpep544', 'reduce_hint_pep484_generic_io_to_pep544_protocol'):
+    'redpep544':
         'dispatched on the IO generics of typing: the key is a typing class or its subscription, both hashable',
-    ('_redrecurse', 'is_hint_recursive'):
-        'called with hints of the recursable signs (type aliases, overridden hints) — and, for overrides, inside the caller\'s TypeError handler',
-    ('_redrecurse', 'make_hint_sane_recursable'):
-        'called after is_hint_recursive() succeeded on the same key',
+    '_redrecurse':
+        'the recursion guard is consulted with hints of the recursable signs (type aliases, overridden hints) — and, for '
+        'overrides, inside the caller\'s TypeError handler',
 }
 
 
@@ -693,7 +694,7 @@ def _hint_keyed_lookups(ctx):
                             for c in ast.walk(p.test)) and x not in list(ast.walk(p.test)):
                         guarded = True
                     p = parent(p)
-                listed = (short, qualname_of(fn)) in HASHABLE_BY_DISPATCH
+                listed = short in HASHABLE_BY_DISPATCH
                 ctx.ob('C11.R14', f'hint-key:{short}.{qualname_of(fn)}:{norm(x)[:50]}', m.where(x),
                        'a lookup keyed by a hint is guarded against unhashable hints (or its key is hashable by dispatch)', guarded or listed,
                        f'`{norm(x)[:80]}` hashes the hint unguarded: an unhashable hint escapes as a bare TypeError')
